@@ -280,6 +280,7 @@ type HarnessRun struct {
 	fnsSeen      map[string]int
 	gwrites      map[string]bool
 	samples      []*PathSample
+	probes       []*PathSample
 	sampleEvery  int
 	solver       SolverStats
 	truncated    bool
@@ -416,7 +417,25 @@ func (h *HarnessRun) runPath(item workItem, sol *Solver, pathNo int64) (sibs []w
 		atomic.AddInt64(&h.stats.unsupported, 1)
 		h.mu.Lock()
 		h.unsupported[msg]++
+		nprobe := h.unsupported[msg]
 		h.mu.Unlock()
+		// concolic probe: the inputs that lead here are run natively (bug hunting only, the path stays inconclusive)
+		if nprobe <= 6 {
+			model := in.model
+			if model == nil {
+				if r, m := sol.Check(nil, in.vars); r == Sat {
+					model = m
+				}
+			}
+			if model != nil {
+				ds, uf := h.modelDraws(in, model)
+				h.mu.Lock()
+				if len(h.probes) < 48 {
+					h.probes = append(h.probes, &PathSample{Harness: h.cfg.Name, Args: h.args, Draws: ds, UF: uf, Outcome: "unsupported: " + msg})
+				}
+				h.mu.Unlock()
+			}
+		}
 	case OUnwind:
 		atomic.AddInt64(&h.stats.unwind, 1)
 		h.recordInconclusive("UNWIND " + msg)
